@@ -235,7 +235,7 @@ def run(ctx, res):
                     res.traces_validated += 1
                 if by.get((i, sh, 'rx-wf'), 'true') != 'true':
                     res.violations.append(report.Violation(
-                        'C16: Rust\'s regex arena is not well-formed in the sense of the theorems (rx_wf_b): ' + by[(i, sh, 'rx-wf')],
+                        'C16: Rust\'s regex arena is not well-formed in the sense of the theorems (rx_wf_b && rx_total_b): ' + by[(i, sh, 'rx-wf')],
                         dict(replay, kind='theorem-hypothesis'), found_input=False))
                 if judge != '(ok)':
                     cls = None
